@@ -975,6 +975,20 @@ func runCase(spec *caseSpec) {
 		if len(rootIDs) == 0 {
 			fail("depth-no-root", "no root returned")
 		}
+		// every followed direct predecessor of the given node lies under a root (C03_direct_predecessors_covered)
+		for _, p := range filteredPreds(g, spec.Start, fs) {
+			up := ancestors(g, p, fs)
+			covered := false
+			for _, r := range rootIDs {
+				if _, ok := up[r]; ok {
+					covered = true
+				}
+			}
+			if !covered {
+				fail("depth-direct-pred-uncovered", fmt.Sprintf("direct predecessor %d of the given node %d is under none of the roots %v (Depth %d)", p, spec.Start, rootIDs, spec.Limit))
+				break
+			}
+		}
 		for _, r := range rootIDs {
 			if !within[r] {
 				fail("depth-root-too-far", fmt.Sprintf("root %d is not an ancestor within %d steps (%v)", r, spec.Limit, ancWithin))
@@ -1110,6 +1124,12 @@ func runCase(spec *caseSpec) {
 
 	// ---- ExtendedCopyGraph
 	lower := g.Reach(spec.Start)
+	for _, p := range filteredPreds(g, spec.Start, fs) {
+		// (any Depth >= 1) the graphs of the followed direct predecessors arrive too
+		for k := range g.Reach(p) {
+			lower[k] = true
+		}
+	}
 	upper := unionReach(g, ancWithin)
 	// initial: what the destination held before the copy (link-closed subset)
 	initial := map[int]bool{}
